@@ -670,10 +670,16 @@ func (env *SpecEnv) evalQuant(q *EQuant) (Val, types.Type) {
 				e2 = env.withBound(q.Vars[0], nameEntry{V: ev, T: el})
 			}
 			body := e2.evalBool(q.Body)
-			pat := firstTerm(ev)
 			guard := fmt.Sprintf("(and (<= 0 %s) (< %s %s))", i, i, cc.Len)
-			if pat != "" && strings.Contains(pat, i) {
-				return boolv(fmt.Sprintf("(%s ((%s Int)) (! %s :pattern (%s)))", kw, i, join(guard, body), pat)), tBool
+			// one alternative trigger per leaf of the element (an interface element has a tag and a payload select, ...)
+			var pats []string
+			for n, t := range vc.flatten(ev, el) {
+				if n < 4 && strings.Contains(t, i) && strings.HasPrefix(t, "(select ") {
+					pats = append(pats, ":pattern ("+t+")")
+				}
+			}
+			if len(pats) > 0 {
+				return boolv(fmt.Sprintf("(%s ((%s Int)) (! %s %s))", kw, i, join(guard, body), strings.Join(pats, " "))), tBool
 			}
 			return boolv(fmt.Sprintf("(%s ((%s Int)) %s)", kw, i, join(guard, body))), tBool
 		case Sc:
@@ -781,6 +787,17 @@ func (env *SpecEnv) evalCall(c *ECall) (Val, types.Type) {
 			sfail("keys() needs a map")
 		}
 		return SetV{T: st.mapDom(m, asSc(v).T, env.snap()), K: vc.leaves(m.Key())[0].Sort}, &setType{K: m.Key()}
+	case "addr":
+		// addr(x): the address of an address-taken local variable x
+		id, ok := c.Args[0].(*EIdent)
+		if !ok || env.lookup == nil {
+			sfail("addr() needs a local variable name")
+		}
+		ne, ok := env.lookup(id.Name)
+		if !ok || !ne.IsAddr {
+			sfail("addr(%s): not an address-taken local", id.Name)
+		}
+		return ne.V, ne.T
 	case "defined":
 		// defined(x): is the local name x bound on this path? (statically decided)
 		id, ok := c.Args[0].(*EIdent)
@@ -939,6 +956,9 @@ func (env *SpecEnv) evalCall(c *ECall) (Val, types.Type) {
 		return (&n).eval(p.Body)
 	}
 	if u, ok := vc.ufs[c.Fn]; ok {
+		if len(u.Params) != len(c.Args) {
+			sfail("%s: %d arguments, declared with %d", c.Fn, len(c.Args), len(u.Params))
+		}
 		var args []string
 		for _, a := range c.Args {
 			v, _ := env.eval(a)
